@@ -11,6 +11,53 @@ var propAssumptions = map[string][]string{
 	},
 }
 
+func init() {
+	propAssumptions["C02"] = []string{
+		"logical sector size is 512 or 4096; a table given to Write is a separately allocated *Table whose Partitions are separately allocated non-nil *Partition objects (isobj/isarray region-typing assumptions at the API boundary)",
+		"uuid.Parse / uuid.FromBytes / UUID.String / strings.ToUpper are deterministic functions (uninterpreted); Parse(ToUpper(String(u))) == u is NOT assumed, so GUID round-trip is stated as equality of the mixed-endian bytes with guidparse(...) on the write side and guidstring(...) on the read side",
+		"utf16.Encode/Decode: only length bounds are modelled; the content of the name field is not under contract",
+		"hash/crc32.ChecksumIEEE is an uninterpreted function of the byte sequence (two equal sequences have equal CRCs)",
+		"gpt.reverseSlice (reflect.Swapper) is modelled natively as an in-place reversal (trusted)",
+		"io.ReaderAt / io.WriterAt / io.Seeker / Sync behave as documented (environment contracts)",
+	}
+	propNotDecided["C02"] = []string{
+		"that slot index-1 of the GPT entry array holds exactly the bytes of the partition with that index (the Go map in toPartitionArrayBytes is not under contract; index range, buffer size and bounds of every slot copy are proved, the per-entry encoding is proved in (*Partition).toBytes)",
+		"equality of the array CRC recorded in the header with the CRC of the array that Write puts on disk (needs determinism of toPartitionArrayBytes across its three calls)",
+		"partition names (UTF-16 content) and the list equality of Read(Write(t)) as a whole — decoders and encoders are proved field by field against the on-disk layout instead",
+		"disk.(*Disk).GetPartition (interface dispatch over part.Partition)",
+		"mbr.(*Table).Write accepts more than four partitions and ignores Partition.Index (D23, see known findings) — not modelled as an obligation",
+	}
+	propAssumptions["C15"] = []string{
+		"logical block size passed to Read is 512 or 4096 (a parameter, not device content)",
+		"device contents, ReadAt results (any n <= len, any error) and Seek results are unconstrained",
+		"allocation bound proved: no single allocation in the gpt.Read call tree exceeds 8 MiB (65536 entries of 128 bytes); mbr.Read allocates 512 bytes",
+		"termination: loops carry variants where the iteration count depends on device content (readPartitionArrayBytes); loops over in-memory slices are bounded by their length",
+	}
+	propNotDecided["C15"] = []string{
+		"total allocation summed over a call (only each allocation is bounded)",
+		"termination of foreign code (uuid, utf16, fmt)",
+	}
+	propAssumptions["C09"] = []string{
+		"A1: CRC32 collision-freeness on the byte strings that occur (torn arrays, old/new headers)",
+		"A2: the write of one header sector is atomic; A3: Sync makes earlier writes durable before later ones are issued; A4: Read sees the device size Write was given",
+		"side separation is proved only when the backend implements Sync() (otherwise Write cannot order anything and the property is vacuous for that backend)",
+		"the lemma /verif/lemmas/C09_gpt_crash_atomic.smt2 is linked to the contract clauses by name (manual transcription of the clauses into an abstract SMT model)",
+	}
+	propNotDecided["C09"] = []string{
+		"first-ever write on a blank disk (old = no table): outside the lemma's hypothesis",
+		"equality of the array CRC in the header with the array actually written (see C02)",
+	}
+	propAssumptions["C03"] = []string{
+		"covers: mbr/gpt Table.Write (every device write is one of the table's own regions), mbr/gpt WriteContents (every write inside the partition)",
+		"GPT regions do not overlap partition data only for the standard layout chosen by initTable (header fields of a table read from disk are taken as that table's own sectors)",
+	}
+	propNotDecided["C03"] = []string{
+		"filesystems (fat12/16/32, ext4, iso9660, squashfs) and backend.SubStorage: not yet under contract in this check",
+	}
+	propAssumptions["C12"] = []string{"partition.Read: GPT is probed before MBR (call-site assertions); filesystem probing in disk.GetFilesystem is not under contract"}
+	propNotDecided["C12"] = []string{"filesystem type recognition (disk.GetFilesystem and the per-filesystem Read acceptance tests)", "stale bytes of a previous filesystem", "labels and contents"}
+}
+
 var propNotDecided = map[string][]string{
 	"C13": {
 		"byte-for-byte content equality between the reader's stream and the device after WriteContents (placement, counts and sizes are proved; the data path is b[:read] handed unchanged to WriteAt)",
